@@ -42,7 +42,7 @@ func Cffti(n int, work []float64, ifac []int) {
 	if n == 1 {
 		return
 	}
-	cffti1(n, work[2*n:4*n], ifac[:15])
+	cffti1(n, work[2*n:4*n], ifac)
 }
 
 func cffti1(n int, wa []float64, ifac []int) {
@@ -174,7 +174,7 @@ func Cfftf(n int, r, work []float64, ifac []int) {
 	if n == 1 {
 		return
 	}
-	cfft1(n, r[:2*n], work[:2*n], work[2*n:4*n], ifac[:15], -1)
+	cfft1(n, r[:2*n], work[:2*n], work[2*n:4*n], ifac, -1)
 }
 
 // Cfftb computes the backward complex Discrete Fourier Transform
@@ -235,7 +235,7 @@ func Cfftb(n int, c, work []float64, ifac []int) {
 	if n == 1 {
 		return
 	}
-	cfft1(n, c[:2*n], work[:2*n], work[2*n:4*n], ifac[:15], 1)
+	cfft1(n, c[:2*n], work[:2*n], work[2*n:4*n], ifac, 1)
 }
 
 // cfft1 implements cfftf1 and cfftb1 depending on sign.
